@@ -217,7 +217,8 @@ type SMOptions struct {
 	SlowSave     time.Duration
 	SlowUpdate   time.Duration
 	SlowPrepare  time.Duration // PrepareSnapshot dwells after fixing its view
-	RaceCanary   bool          // keep the deliberately unsynchronised field (race detector oracle)
+	SlowSync     time.Duration
+	RaceCanary   bool // keep the deliberately unsynchronised field (race detector oracle)
 	RecordApply  bool
 	OpenFailStop bool
 }
@@ -719,6 +720,9 @@ func (o *onDiskSM) Sync() error {
 	o.s.dmu.RLock()
 	c := o.s.data.clone()
 	o.s.dmu.RUnlock()
+	if o.s.opt.SlowSync > 0 {
+		time.Sleep(o.s.opt.SlowSync)
+	}
 	o.s.disk.mu.Lock()
 	if !o.s.disk.frozen {
 		o.s.disk.synced = c
